@@ -10,7 +10,7 @@ use serde_json::{Value, json};
 use std::collections::BTreeSet;
 use std::sync::Arc;
 
-fn spell_only(d: Dialect, dict: Arc<FstDictionary>) -> LintGroup {
+fn spell_only(d: Dialect, dict: Arc<impl Dictionary + 'static>) -> LintGroup {
     let mut g = LintGroup::new_curated(dict, d);
     g.set_all_rules_to(Some(false));
     g.config.set_rule_enabled("SpellCheck", true);
@@ -275,6 +275,91 @@ pub fn run(tier: Tier) -> i32 {
         report.add("negative_cases", e);
         for v in vs {
             report.violation(v);
+        }
+    }
+    // ------------------------------------------------------------------ the product-shaped dictionary
+    // curated + user words in a MergedDictionary (as harper-ls, harper-cli and harper.js build it).
+    // User words: the lower-cased form of curated entries that are listed only with capitals
+    // (`markdown` next to `Markdown`, `nasa` next to `NASA`) and two fresh words.
+    {
+        use harper_core::{MergedDictionary, MutableDictionary, WordMetadata};
+        let mut only_cap: Vec<(Vec<char>, Vec<char>)> = vec![];
+        for w in &words {
+            if classify(w) != WordClass::Lexical || !w.iter().any(|c| c.is_uppercase()) {
+                continue;
+            }
+            let low: Vec<char> = w.iter().flat_map(|c| c.to_lowercase()).collect();
+            if low.len() == w.len() && !dict.contains_exact_word(&low) {
+                only_cap.push((w.clone(), low));
+            }
+        }
+        only_cap.sort_by_key(|(w, _)| (w.len(), w.clone()));
+        only_cap.dedup_by(|a, b| a.1 == b.1);
+        only_cap.truncate(tier.pick(600, 6000));
+        let mut user = MutableDictionary::new();
+        for (_, low) in &only_cap {
+            user.append_word(low.clone(), WordMetadata::default());
+        }
+        for fresh in ["tset", "qzxv"] {
+            user.append_word(fresh.chars().collect::<Vec<_>>(), WordMetadata::default());
+        }
+        let mut merged = MergedDictionary::new();
+        merged.add_dictionary(dict.clone());
+        merged.add_dictionary(Arc::new(user));
+        let merged = Arc::new(merged);
+        let mut cases: Vec<(String, bool)> = vec![]; // (word, must be accepted)
+        for (cap, low) in &only_cap {
+            cases.push((low.iter().collect(), true));
+            cases.push((cap.iter().collect(), true));
+        }
+        cases.push(("tset".into(), true));
+        cases.push(("qzxv".into(), true));
+        for w in nonwords.iter().filter(|w| w.len() >= 3).take(tier.pick(300, 3000)) {
+            if !merged.contains_word_str(w) {
+                cases.push((w.clone(), false));
+            }
+        }
+        let nc = cases.len() as u64;
+        let res = par_chunks(nc, 100, ncpu(), |s, e| {
+            let mut group = spell_only(Dialect::American, merged.clone());
+            let mut viols: Vec<Violation> = vec![];
+            let mut evals = 0u64;
+            for i in s..e {
+                let (w, accept) = &cases[i as usize];
+                let wl = w.chars().count();
+                for fr in [&FRAMES[0], &FRAMES[2]] {
+                    evals += 1;
+                    let text = format!("{}{}{}", fr.pre, w, fr.post);
+                    let ws = fr.pre.chars().count();
+                    let r = catch(|| {
+                        let doc = Document::new_plain_english(&text, &*merged);
+                        group.lint(&doc)
+                    });
+                    let Ok(lints) = r else {
+                        group = spell_only(Dialect::American, merged.clone());
+                        continue;
+                    };
+                    let hits = spelling_lints_on(&lints, ws, ws + wl).len();
+                    let sig = if *accept && hits > 0 {
+                        "merged:listed-word-reported"
+                    } else if !*accept && hits != 1 {
+                        "merged:non-word-not-reported-exactly-once"
+                    } else {
+                        continue;
+                    };
+                    if viols.len() < 6 {
+                        viols.push(Violation { sig: sig.into(), case: json!({"engine":"E1","dictionary":"curated + user words (MergedDictionary)","text": text, "word": w, "frame": fr.name}), detail: json!({"spelling_lints_on_word": hits}) });
+                    }
+                }
+            }
+            (evals, viols)
+        });
+        for (e, vs) in res {
+            report.add("evaluations", e);
+            report.add("merged_dictionary_cases", e);
+            for v in vs {
+                report.violation(v);
+            }
         }
     }
     report.outcomes.insert(0);
